@@ -44,6 +44,7 @@ def prog_part(ctx):
             o["BunchCurrent"] = [round(r.loguniform(1e-4, 2e-3), 7)]
         if i % 4 == 1:
             o["VacuumGap"] = 0
+        prog.sprinkle(core.Rng("c13nuisance", ctx.seed, i), o, wd=d, clamp_ok=True, padding_ok=False)        # more options that have to survive the round trip
         prog.run_inovesa("rel", dict(o, outstep=0, rotations=0.01, output="warm.h5"), d, xdg, timeout=600)
         r1 = prog.run_inovesa("rel", dict(o, output="first.h5"), d, xdg, timeout=600)
         out = dict(i=i, opts=o, cmd=" ".join(r1["argv"]))
